@@ -11,6 +11,17 @@ CHECKS = {
   note="Trusts sha256 for file equality, the measured Fresh(inv) (one run of each invocation into an empty directory), TLC and the harness's directory listing. Flags other than client/api-handler are fixed; the five spec kinds are fixed texts in harness/internal/checks/c19.go."),
 }
 
+CHECKS["C13"] = dict(
+  level="model_checking", design="§4 C13, spec/Embed.tla, spec/Pipeline.tla (SpecHit)",
+  technique="TLA+ model of encodeRawFileAsString and of Go's string-literal lexer (MC_Embed) checked exhaustively by TLC; every enumerated content embedded by the real generator, constant evaluated with go/types and judged by TLC (Trace_Embed); served half judged by Trace_Embed / Trace_Pipeline on compiled packages",
+  text="Exhaustive on model and code for all contents up to length 4 over the 11-token alphabet of Go-literal-relevant bytes (thorough: length 6 over the 8-token core alphabet), plus seeded random contents and real spec files in several surface forms (one-line JSON, CRLF, no trailing newline, BOM); the served half requests <base>/<spec name> through compiled generated packages with 0-3 middlewares, with and without SpecFileHandler.",
+  note="The compiled constant is computed by go/parser + go/types constant folding (same semantics as the compiler). Bytes outside the token alphabet are ordinary characters for Go's literal syntax. TLC, the tokenizer and the driver are trusted.")
+CHECKS["C03"] = dict(
+  level="model_checking", design="§4 C03, spec/Router.tla, spec/Pipeline.tla",
+  technique="TLA+ model of the generated route tree walk checked against OpenAPI path matching by TLC (MC_Router); TLC-enumerated template sets compiled and every request path up to the bound served by the real router; dispatch events judged by TLC (Trace_Pipeline)",
+  text="Design check: every set of <=2 (thorough: also <=3) non-equivalent templates x method assignments x every request path up to depth 3-5 over {a,b,z,empty} - the model of the generated route functions always returns an admissible dispatch. Conformance: a seeded sample of those sets is generated, compiled and served EVERY request path up to depth 4 (thorough 5) x methods, packed under literal prefixes and unpacked at the root under 9 base-path forms, with base-path near misses; which handler ran, not-found, spec route and the reported template are validated by TLC against the Prop layer.",
+  note="Reading of DESIGN §11 (non-dominated candidates admissible, variables match any segment). Requests are served in-process with arbitrary URL.Path. Template sets are sampled (seeded), request paths are exhaustive for each sampled set. TLC, the renderer and the reflective driver are trusted.")
+
 NOT_YET = {}
 
 def main():
